@@ -3,6 +3,7 @@
   questions and records that were given (content half of C12 (d) in every compression mode).
 -/
 import QV.Proofs.WriterContent
+import QV.Proofs.WriterRefine
 
 namespace QV.Writer
 open QV QV.Wire QV.Spec QV.ServerSafety
@@ -185,5 +186,274 @@ theorem decodeRrs_chainC (s : State) (hw : WInv s) :
         simp only [e1, e2, e8]
         rw [if_pos (by rw [hsz]; omega), hl]
         simp only [hex2]
+
+
+/-! ### what `finish` appends, with content -/
+
+/-- the OPT record as `finish` hands it to `add_rr` (class = the payload size as stored) -/
+def optRecs' : Option Edns → List RRec
+  | some e => [⟨WName.root, T_OPT, e.payload, (e.upper * 16777216) % 4294967296, []⟩]
+  | none => []
+
+/-- one record appended by `finish` (no hint), with content -/
+theorem chainsC_addRr_none {s s' : State} (hw : WInv s) (hl : PtrLogOK s) (owner : WName) (ty cls ttl : Nat)
+    (rd : List UInt8) (hwf : owner.WF)
+    (h : addRr .none owner ty cls ttl rd s = (.ok (), s')) (hle : s'.cursor ≤ 65535)
+    {qs : List QItC} {rs : List RItC} {r : Nat} (hr12 : r ≤ s.cursor)
+    (hq : QChainC s qs 12 r) (hr : RChainC s rs r s.cursor) :
+    WInv s' ∧ PtrLogOK s' ∧ Ext s s' ∧ QChainC s' qs 12 r ∧
+      ∃ it : RItC, RChainC s' (rs ++ [it]) r s'.cursor ∧ it.r = ⟨owner, ty, cls, ttl, rd⟩ := by
+  obtain ⟨_, hok⟩ := sp_addRr (track := s.hv = some []) (s0 := s) (names := []) .none owner ty cls ttl rd hwf s
+    ⟨[], _, none, recSt_init hw hl, trivial⟩
+  obtain ⟨p, hrec⟩ := hok () s' h
+  have e : Ext s s' := by
+    have := frame_addRr .none owner ty cls ttl rd s
+    rw [h] at this; exact this
+  obtain ⟨it, hch, hrr, _⟩ := addRr_itemC .none owner ty cls ttl rd s s' hw hwf trivial h hle
+  exact ⟨hrec.winv, hrec.log, e, qchainC_ext e hr12 hq, it,
+    rchainC_append (rchainC_ext e (Nat.le_refl _) hr) hch, hrr⟩
+
+/-- the final chains with content -/
+structure FinLayC (s sF : State) (len : Nat) (mac : Option (List UInt8)) (b : Body) : Prop where
+  winv : WInv sF
+  len : len = sF.cursor
+  counts : BytesAt sF.octets 4 (u16be s.qdcount ++ u16be s.ancount ++ u16be s.nscount ++ u16be s.arcount)
+  chains : ∃ qs rs, QChainC sF qs 12 s.rrStart ∧ RChainC sF rs s.rrStart sF.cursor ∧
+    qs.map (·.q) = b.qs ∧
+    rs.map (·.r) = b.an ++ b.ns ++ (b.ar ++ optRecs' s.edns ++ tsigRecs s.tsig mac)
+
+theorem finishWithMac_finLayC (macFn : Tsig → List UInt8 → List UInt8) (s : State) (b : Body) (hI : I s)
+    (hL : CLay s b) (len : Nat) (mac : Option (List UInt8)) (sF : State)
+    (hw : finishWithMac macFn s = (.ok (len, mac), sF)) (hle : sF.cursor ≤ 65535) : FinLayC s sF len mac b := by
+  unfold finishWithMac at hw
+  simp only [M.bind_apply, M.gets_apply] at hw
+  obtain ⟨o, hceq, hIA, hosz⟩ := finishCounts_spec s.qdcount s.ancount s.nscount s.arcount s hI
+  obtain ⟨kpre, kcnt, _, _, _, _, _⟩ := finishCounts_bytes _ _ _ _ s _ hceq
+  rw [hceq] at hw
+  simp only [] at hw
+  generalize hsA : ({ s with octets := o } : State) = sA at hw hIA kpre kcnt
+  have cA : sA.cursor = s.cursor := by rw [← hsA]
+  have gA : sA.gLabels = s.gLabels := by rw [← hsA]
+  have eA : sA.edns = s.edns := by rw [← hsA]
+  have tA : sA.tsig = s.tsig := by rw [← hsA]
+  have avA : sA.available = s.available := by rw [← hsA]
+  have szA : sA.octets.size = s.octets.size := by rw [← hsA]; exact hosz
+  have h12 : 12 ≤ s.cursor := hI.inv.hdr
+  have hrr := hI.inv.rr_hi
+  have hres := inv_reserved' hI.inv
+  have hav := hI.inv.av_lim; have hls := hI.inv.lim_size
+  have h11 : Gen.OPT_RECORD_SIZE = 11 := rfl
+  obtain ⟨qs, hq, hqm⟩ := hL.q
+  have hq12 : 12 ≤ s.rrStart := qchainC_le hq
+  cases ho : finishOpt s.edns sA with
+  | mk r2 s1 =>
+    rw [ho] at hw
+    cases r2 with
+    | err e => cases hw
+    | panic => cases hw
+    | ok u2 =>
+      simp only [] at hw
+      have hT := finishTsig_inv hw
+      have hO := finishOpt_inv ho
+      have hmono : s1.cursor ≤ sF.cursor := by
+        rcases hT with ⟨_, e, _⟩ | ⟨ts, rdata, _, _, hadd, _⟩
+        · rw [e]; exact Nat.le_refl _
+        · have := frame_addRr .none ts.rr.keyName T_TSIG QC_ANY (ttlFrom 0) rdata
+            { s1 with tsig := none, available := s1.available + ts.reservedLen }
+          rw [hadd] at this; exact this.cur
+      have hmonoA : sA.cursor ≤ s1.cursor := by
+        rcases hO with ⟨_, e⟩ | ⟨e, _, hadd⟩
+        · rw [e]; exact Nat.le_refl _
+        · have := frame_addRr .none WName.root T_OPT e.payload ((e.upper * 16777216) % 4294967296) []
+            { sA with available := sA.available + Gen.OPT_RECORD_SIZE }
+          rw [hadd] at this; exact this.cur
+      have hle1 : s1.cursor ≤ 65535 := by omega
+      have hle0 : s.cursor ≤ 65535 := by omega
+      obtain ⟨rs, hr, hrm⟩ := hL.r hle0
+      have hpreA : ∀ i, 12 ≤ i → i < s.cursor → sA.octets[i]? = s.octets[i]? := fun i hi _ => kpre i (Or.inr hi)
+      have hqA : QChainC sA qs 12 s.rrStart :=
+        qchainC_move (lo := 12) (fun it hlo hk hf => qfacts_frame (lo := 12) hf hlo (by omega) hI.winv.g12 hpreA
+          (by rw [cA]; exact Nat.le_refl _) (fun g hg => by rw [gA]; exact hg)) (Nat.le_refl _) hq
+      have hrA : RChainC sA rs s.rrStart sA.cursor := by
+        rw [cA]
+        exact rchainC_move (lo := 12) (fun it hlo hk hf => rfacts_frame (lo := 12) hf hlo hk hI.winv.g12 hpreA
+          (by rw [cA]; exact Nat.le_refl _) (fun g hg => by rw [gA]; exact hg)) hq12 hr
+      -- stage 1: the OPT record
+      have stage1 : ∃ o1 : List RItC, WInv s1 ∧ PtrLogOK s1 ∧ QChainC s1 qs 12 s.rrStart ∧
+          RChainC s1 (rs ++ o1) s.rrStart s1.cursor ∧ o1.map (·.r) = optRecs' s.edns ∧
+          (∀ i, i < 12 → s1.octets[i]? = sA.octets[i]?) ∧ s1.tsig = s.tsig ∧
+          s1.available + tsigReserved s.tsig ≤ s1.octets.size := by
+        rcases hO with ⟨he, e⟩ | ⟨e, he, hadd⟩
+        · subst e
+          refine ⟨[], hIA.winv, hIA.log, hqA, by simpa using hrA, by rw [he]; rfl, fun _ _ => rfl, tA, ?_⟩
+          rw [avA, szA]; rw [he] at hres; simp at hres; omega
+        · rw [he] at hres
+          simp only [Option.isSome_some, if_true, h11] at hres
+          have wA' : WInv { sA with available := sA.available + Gen.OPT_RECORD_SIZE } := by
+            have := winv_raise hIA.winv Gen.OPT_RECORD_SIZE (by rw [avA, szA, h11]; omega) sA.tsig
+            exact this
+          have hqA' : QChainC { sA with available := sA.available + Gen.OPT_RECORD_SIZE } qs 12 s.rrStart :=
+            qchainC_fields (s := sA) (s' := { sA with available := sA.available + Gen.OPT_RECORD_SIZE }) rfl rfl rfl hqA
+          have hrA' : RChainC { sA with available := sA.available + Gen.OPT_RECORD_SIZE } rs s.rrStart sA.cursor :=
+            rchainC_fields (s := sA) (s' := { sA with available := sA.available + Gen.OPT_RECORD_SIZE }) rfl rfl rfl hrA
+          obtain ⟨w1, l1, e1, hq1, it, hr1, hit1⟩ := chainsC_addRr_none
+            (s := { sA with available := sA.available + Gen.OPT_RECORD_SIZE }) wA' hIA.log WName.root T_OPT
+            e.payload ((e.upper * 16777216) % 4294967296) [] (by decide) hadd hle1
+            (r := s.rrStart) (by show s.rrStart ≤ sA.cursor; rw [cA]; exact hrr) hqA' hrA'
+          refine ⟨[it], w1, l1, hq1, hr1, ?_, fun i hi => e1.pre i (by show i < sA.cursor; rw [cA]; omega),
+            by rw [e1.tsig]; exact tA, ?_⟩
+          · rw [he]; simp only [List.map_cons, List.map_nil, hit1]; rfl
+          · rw [e1.available, e1.size]
+            show sA.available + Gen.OPT_RECORD_SIZE + _ ≤ sA.octets.size
+            rw [avA, szA, h11]; omega
+      obtain ⟨o1, w1, l1, hq1, hr1, hom, hpre1, ht1, hroom1⟩ := stage1
+      have c12 : 12 ≤ s1.cursor := by rw [cA] at hmonoA; omega
+      have hl8 : (u16be s.qdcount ++ u16be s.ancount ++ u16be s.nscount ++ u16be s.arcount).length = 8 := rfl
+      rcases hT with ⟨hts, e, hlen⟩ | ⟨ts, rdata, hts, hlen, hadd, hrd⟩
+      · subst e
+        refine ⟨w1, hlen, ?_, qs, rs ++ o1, hq1, hr1, hqm, ?_⟩
+        · intro i hi
+          rw [hl8] at hi
+          rw [hpre1 _ (by omega)]
+          exact kcnt i (by rw [hl8]; exact hi)
+        · rw [List.map_append, hrm, hom, hts]
+          simp [tsigRecs, List.append_assoc]
+      · obtain ⟨_, hkey, _, _, _⟩ := hI.tsig ts hts
+        rw [hts] at hroom1
+        simp only [tsigReserved] at hroom1
+        have w1' : WInv { s1 with tsig := none, available := s1.available + ts.reservedLen } := by
+          have := winv_raise w1 ts.reservedLen hroom1 none
+          exact this
+        have hq1' : QChainC { s1 with tsig := none, available := s1.available + ts.reservedLen } qs 12 s.rrStart :=
+          qchainC_fields (s := s1) (s' := { s1 with tsig := none, available := s1.available + ts.reservedLen }) rfl rfl rfl hq1
+        have hr1' : RChainC { s1 with tsig := none, available := s1.available + ts.reservedLen } (rs ++ o1)
+            s.rrStart s1.cursor :=
+          rchainC_fields (s := s1) (s' := { s1 with tsig := none, available := s1.available + ts.reservedLen }) rfl rfl rfl hr1
+        obtain ⟨w2, l2, e2, hq2, it, hr2, hit2⟩ := chainsC_addRr_none
+          (s := { s1 with tsig := none, available := s1.available + ts.reservedLen }) w1' l1 ts.rr.keyName T_TSIG
+          QC_ANY (ttlFrom 0) rdata hkey hadd hle
+          (r := s.rrStart) (by show s.rrStart ≤ s1.cursor; rw [cA] at hmonoA; omega) hq1' hr1'
+        refine ⟨w2, hlen, ?_, qs, rs ++ o1 ++ [it], hq2, hr2, hqm, ?_⟩
+        · intro i hi
+          rw [hl8] at hi
+          rw [e2.pre _ (by show 4 + i < s1.cursor; omega), hpre1 _ (by omega)]
+          exact kcnt i (by rw [hl8]; exact hi)
+        · rw [List.map_append, List.map_append, hrm, hom, hts]
+          simp only [List.map_cons, List.map_nil, hit2, tsigRecs, hrd, List.append_assoc]
+
+
+theorem map_take_eq {α β : Type} (f : α → β) (l : List α) (a b : List β) (h : l.map f = a ++ b) :
+    (l.take a.length).map f = a ∧ (l.drop a.length).map f = b := by
+  constructor
+  · rw [List.map_take, h, List.take_left']; rfl
+  · rw [List.map_drop, h, List.drop_left']; rfl
+
+/-- **C12 (d) in every compression mode, content.** From a valid writer state whose layout holds the
+    questions and records `b`: whatever `finish` returns (if at most 65535 octets) decodes completely
+    under the independent message decoder, and — section by section, in order — every decoded
+    question and record is the one given: name equal up to ASCII case (octet for octet when it was
+    written in `CasePreserving` or `Disabled` mode), TYPE, CLASS, TTL as given (as 16/16/32-bit
+    values); the additional section ends with the OPT and TSIG records `finish` appends. -/
+theorem finish_decodes_content (macFn : Tsig → List UInt8 → List UInt8) (s : State) (b : Body) (hI : I s)
+    (hL : CLay s b) (m : Bytes) (mac : Option (List UInt8)) (hf : finish s macFn = .ok (m, mac))
+    (hsz : m.size ≤ 65535) :
+    ∃ (d : DMsg) (qs : List QItC) (ian ins iar : List RItC), specDecodeMsg m = some d ∧
+      qs.map (·.q) = b.qs ∧ ian.map (·.r) = b.an ∧ ins.map (·.r) = b.ns ∧
+      iar.map (·.r) = b.ar ++ optRecs' s.edns ++ tsigRecs s.tsig mac ∧
+      All2 QMatch qs d.questions ∧ All2 RMatch ian d.an ∧ All2 RMatch ins d.ns ∧ All2 RMatch iar d.ar := by
+  unfold finish at hf
+  cases hw : finishWithMac macFn s with
+  | mk r sF =>
+    rw [hw] at hf
+    cases r with
+    | err e => cases hf
+    | panic => cases hf
+    | ok p =>
+      obtain ⟨len, mc⟩ := p
+      simp only [Out.ok.injEq, Prod.mk.injEq] at hf
+      obtain ⟨hm, hmc⟩ := hf
+      subst hmc
+      obtain ⟨hlim, hlc, hszF⟩ := finishWithMac_len macFn s hI.inv len mc sF hw
+      have hls := hI.inv.lim_size
+      have hcF : sF.cursor ≤ sF.octets.size := by omega
+      have hmsz : m.size = sF.cursor := by rw [← hm, hlc]; exact extract_size _ _ hcF
+      have hle : sF.cursor ≤ 65535 := by omega
+      obtain ⟨wF, _, hcnt, qs, rs, hq, hr, hqm, hrm⟩ := finishWithMac_finLayC macFn s b hI hL len mc sF hw hle
+      rw [hlc] at hm
+      subst hm
+      have hsz' := extract_size sF.octets sF.cursor hcF
+      have h12 : 12 ≤ sF.cursor := wF.c12
+      have hl2 : ∀ x, (u16be x).length = 2 := fun _ => rfl
+      obtain ⟨c123, c4⟩ := bytesAt_append hcnt
+      obtain ⟨c12, c3⟩ := bytesAt_append c123
+      obtain ⟨c1, c2⟩ := bytesAt_append c12
+      simp only [List.length_append, hl2] at c2 c3 c4
+      have e4 : be16 (sF.octets.extract 0 sF.cursor) 4 = s.qdcount := by
+        rw [be16_extract _ _ _ hcF (by omega)]; exact be16_of_bytesAt c1 (by have := hI.inv.qd; omega)
+      have e6 : be16 (sF.octets.extract 0 sF.cursor) 6 = s.ancount := by
+        rw [be16_extract _ _ _ hcF (by omega)]; exact be16_of_bytesAt c2 (by have := hI.inv.an; omega)
+      have e8 : be16 (sF.octets.extract 0 sF.cursor) 8 = s.nscount := by
+        rw [be16_extract _ _ _ hcF (by omega)]; exact be16_of_bytesAt c3 (by have := hI.inv.ns; omega)
+      have e10 : be16 (sF.octets.extract 0 sF.cursor) 10 = s.arcount := by
+        rw [be16_extract _ _ _ hcF (by omega)]; exact be16_of_bytesAt c4 (by have := hI.inv.ar; omega)
+      -- the lengths
+      have hql : qs.length = s.qdcount := by
+        have := congrArg List.length hqm; rw [List.length_map] at this; rw [this, hL.qd]
+      have hpl : (optRecs' s.edns ++ tsigRecs s.tsig mc).length = pend s := by
+        unfold pend
+        cases s.edns <;> cases s.tsig <;> simp [optRecs', tsigRecs]
+      have hrl : rs.length = s.ancount + s.nscount + s.arcount := by
+        have := congrArg List.length hrm
+        rw [List.length_map] at this
+        rw [this, hL.an, hL.ns, hL.ar]
+        simp only [List.length_append] at hpl ⊢
+        omega
+      have hrrle : s.rrStart ≤ sF.cursor := rchainC_le hr
+      -- questions
+      obtain ⟨lq, hdq, hmq⟩ := decodeQuestions_chainC sF wF qs 12 s.rrStart hq hrrle
+      rw [hql] at hdq
+      -- the sections of the given records
+      obtain ⟨ha1, ha2⟩ := map_take_eq (·.r) rs (b.an ++ b.ns) (b.ar ++ optRecs' s.edns ++ tsigRecs s.tsig mc)
+        (by rw [hrm]; try simp [List.append_assoc])
+      obtain ⟨hb1, hb2⟩ := map_take_eq (·.r) (rs.take (b.an ++ b.ns).length) b.an b.ns ha1
+      have hanl : b.an.length = s.ancount := hL.an.symm
+      have hnsl : b.ns.length = s.nscount := hL.ns.symm
+      -- the three record sections
+      obtain ⟨la, p2, hda, hma, hch2⟩ := decodeRrs_chainC sF wF _ _ _ hr (Nat.le_refl _) s.ancount (by omega)
+      obtain ⟨ln, p3, hdn, hmn, hch3⟩ := decodeRrs_chainC sF wF _ _ _ hch2 (Nat.le_refl _) s.nscount
+        (by rw [List.length_drop]; omega)
+      obtain ⟨lr, p4, hdr, hmr, hch4⟩ := decodeRrs_chainC sF wF _ _ _ hch3 (Nat.le_refl _) s.arcount
+        (by rw [List.length_drop, List.length_drop]; omega)
+      have hnil : (((rs.drop s.ancount).drop s.nscount).drop s.arcount) = [] := by
+        apply List.eq_nil_of_length_eq_zero
+        rw [List.length_drop, List.length_drop, List.length_drop]; omega
+      rw [hnil] at hch4
+      have hp4 : p4 = sF.cursor := hch4
+      have htk : ((rs.drop s.ancount).drop s.nscount).take s.arcount = (rs.drop s.ancount).drop s.nscount := by
+        apply List.take_of_length_le
+        rw [List.length_drop, List.length_drop]; omega
+      rw [htk] at hmr
+      refine ⟨⟨be16 (sF.octets.extract 0 sF.cursor) 0, be16 (sF.octets.extract 0 sF.cursor) 2, lq, la, ln, lr⟩,
+        qs, rs.take s.ancount, (rs.drop s.ancount).take s.nscount, (rs.drop s.ancount).drop s.nscount, ?_, hqm,
+        ?_, ?_, ?_, hmq, hma, hmn, hmr⟩
+      · unfold specDecodeMsg
+        rw [if_neg (by rw [hsz']; omega)]
+        rw [specField16_some (by rw [hsz']; omega), specField16_some (by rw [hsz']; omega),
+          specField16_some (by rw [hsz']; omega), specField16_some (by rw [hsz']; omega),
+          specField16_some (by rw [hsz']; omega), specField16_some (by rw [hsz']; omega)]
+        simp only [e4, e6, e8, e10, hdq, hda, hdn, hdr]
+        rw [if_pos (by rw [hp4, hsz'])]
+      · -- answers
+        have : (rs.take (b.an ++ b.ns).length).take b.an.length = rs.take s.ancount := by
+          rw [List.take_take, List.length_append, hanl]; congr 1; omega
+        rw [← this]; exact hb1
+      · -- authorities
+        have : (rs.take (b.an ++ b.ns).length).drop b.an.length = (rs.drop s.ancount).take s.nscount := by
+          rw [List.drop_take, List.length_append, hanl, hnsl]; congr 1; omega
+        rw [← this]; exact hb2
+      · -- additionals
+        have : rs.drop (b.an ++ b.ns).length = (rs.drop s.ancount).drop s.nscount := by
+          rw [List.drop_drop, List.length_append, hanl, hnsl]
+        rw [← this]; exact ha2
 
 end QV.Writer
